@@ -622,6 +622,10 @@ def run(ctx: Any, prog: Program) -> None:
     src = U(g_)
     stores = [n for n in ast.walk(g_) if isinstance(n, ast.Assign) and isinstance(n.targets[0], ast.Subscript) and dotted(n.targets[0].value) == 'instance._parsed_lumps']
     blanks = [n for n in ast.walk(g_) if isinstance(n, ast.For) and dotted(n.iter) == 'self.to_clear']
+    # the blanking loop may live in a private helper that __get__ (and __set__) call: the call then stands for it
+    pl_m = bsp.methods('ParsedLump')
+    blank_helpers = {m_ for m_, f_ in pl_m.items() if m_ not in ('__get__', '__set__') and any(isinstance(n, ast.For) and dotted(n.iter) == 'self.to_clear' for n in ast.walk(f_))}
+    blanks += [c for c in ast.walk(g_) if isinstance(c, ast.Call) and isinstance(c.func, ast.Attribute) and dotted(c.func.value) == 'self' and c.func.attr in blank_helpers]
     if not blanks:
         ctx.shape('C10.B6', False, bsp, g_, 'blanking loop over self.to_clear not found', text='cache before blank')
     elif not stores:
